@@ -217,6 +217,7 @@ def check(prop, tier, seed=0, only=None, verbose=True):
     results = run_workers(conds, log)
 
     violations, known_hits, inconclusive = [], [], []
+    n_replayed = 0
     lines = []
     open_findings = {f["id"]: f for f in known_findings(prop) if f.get("status") == "open"}
 
@@ -234,7 +235,6 @@ def check(prop, tier, seed=0, only=None, verbose=True):
         else:
             log(f"[xv] known finding {fid} no longer reproduces on this tree")
 
-    n_replayed = 0
     for name in sorted(results):
         r = results[name]
         expect = r.get("expect", "hold")
@@ -242,6 +242,15 @@ def check(prop, tier, seed=0, only=None, verbose=True):
             # negative control: the engine must refute it
             if r["verdict"] != "refuted":
                 inconclusive.append({"name": name, "why": f"negative control not refuted ({r['verdict']}/{r.get('state')})"})
+            elif r.get("witness") is None:
+                inconclusive.append({"name": name, "why": f"negative control refuted without parsable witness: {r.get('message', '')[:200]}"})
+            else:
+                # the refutation must be a genuine one: reproduced on the real code
+                rep = replay_concrete(prop, r["module"], r["func"], r.get("shard") or {}, r["witness"])
+                n_replayed += 1
+                r["replay"] = rep
+                if not rep.get("reproduced"):
+                    inconclusive.append({"name": name, "why": f"negative control: counter-example did not reproduce ({rep.get('error')})"})
             continue
         if r["verdict"] == "confirmed":
             reach = r.get("reach", {})
